@@ -53,6 +53,7 @@ structure St where
   log : List Entry := []
   status : Status := .running
   nread : Nat := 0                 -- reads performed
+  held : Bytes := []               -- `self._ansi_held`: beginning of an escape sequence kept back by Channel.read
 
 structure Cfg where
   P : Kind → Bytes → Bool      -- re.search(<kind>_pattern, authenticate_buf)
@@ -66,10 +67,17 @@ structure Cfg where
   errBranch : List ErrStmt     -- ... and these are its statements (sync_channel.py:372-379)
   kicks : Bool                 -- `if not buf: if elapsed > return_interval * return_attempts: send_return()`
   ivl : Nat                    -- return_interval (= timeout_ops / returnDivisor)
+  clean : Bytes → Bytes → Bytes × Bytes
+                               -- `Channel.read()` on one transport chunk: held-back bytes → raw chunk → (what the
+                               -- loop gets, what is held back for the next read).  A PARAMETER: the invariant
+                               -- theorems hold for every cleaner; the real one is Scrapli.Chan.chanReadH (C01/C02)
 
-/-- `Channel.read()` (sync_channel.py:71-82): `\r` removed.  (ANSI stripping happens only when the
-    chunk contains ESC; such chunks are outside the model — see design/C09.md.) -/
+/-- `Channel.read()` without its escape-sequence part: `\r` removed (what the real cleaner does to a
+    chunk without ESC byte when nothing is held back) -/
 def chanRead (raw : Bytes) : Bytes := raw.filter (· != 13)
+
+/-- the cleaner for dialogues without escape sequences -/
+def crClean : Bytes → Bytes → Bytes × Bytes := fun _ raw => (chanRead raw, [])
 
 /-- `self.send_return(); return_attempts += 1` (sync_channel.py:377-378, 386-387) -/
 def kick (s : St) : St :=
@@ -108,7 +116,8 @@ def step (c : Cfg) (s : St) (r : Read) : St :=
   match r with
   | .connErr => if c.catchErr then execErr c.errBranch s else { s with status := .connError }
   | .chunk raw t =>
-    let b := chanRead raw
+    let b := (c.clean s.held raw).1
+    let s := { s with held := (c.clean s.held raw).2 }
     let s := if c.kicks && b.isEmpty && decide (t > c.ivl * s.attempts) then kick s else s
     let s := { s with buf := s.buf ++ lower b }
     if c.handler && c.fatal s.buf then { s with status := .fatal }
@@ -146,8 +155,9 @@ def driverP : Kind → Bytes → Bool
   | .ret => fun _ => false
 
 /-- the prologue of a login function (sync_channel.py:282-290, 354-366): counters, buffer and attempts
-    are LOCALS initialised on entry; nothing a previous call left behind is read -/
-def enter (_prev : St) : St := init
+    are LOCALS initialised on entry; the only thing a previous call leaves behind is what
+    `Channel.read` held back (`self._ansi_held`, an attribute of the channel object) -/
+def enter (prev : St) : St := { init with held := prev.held }
 
 /-- several logins on one channel object, one tape each; `prev` = state the previous call ended in -/
 def runSession (c : Cfg) : St → List (List Read) → List St
@@ -156,17 +166,26 @@ def runSession (c : Cfg) : St → List (List Read) → List St
     let s := t.foldl (step c) (enter prev)
     s :: runSession c s ts
 
-/-- configuration of loop `l` with patterns `P`, prompt test `pr`, return interval `ivl` -/
-def cfgOf (l : Loop) (P : Kind → Bytes → Bool) (pr : Bytes → Bool) (ivl : Nat) : Cfg :=
+/-- configuration of loop `l` with patterns `P`, prompt test `pr`, return interval `ivl`, cleaner `cl` -/
+def cfgOfC (l : Loop) (P : Kind → Bytes → Bool) (pr : Bytes → Bool) (ivl : Nat)
+    (cl : Bytes → Bytes → Bytes × Bytes) : Cfg :=
   { P := P, prompt := pr, fatal := fatalMsg,
     k1 := (Gen.Auth.orderOf l).1, k2 := (Gen.Auth.orderOf l).2,
     limit := Gen.Auth.limitOf l, handler := Gen.Auth.hasHandler l,
-    catchErr := Gen.Auth.catchesConnErr l, errBranch := Gen.Auth.connErrBranch l, kicks := Gen.Auth.kicksOnEmpty l, ivl := ivl }
+    catchErr := Gen.Auth.catchesConnErr l, errBranch := Gen.Auth.connErrBranch l, kicks := Gen.Auth.kicksOnEmpty l, ivl := ivl,
+    clean := cl }
+
+/-- the same for dialogues without escape sequences (CR removal only) -/
+def cfgOf (l : Loop) (P : Kind → Bytes → Bool) (pr : Bytes → Bool) (ivl : Nat) : Cfg := cfgOfC l P pr ivl crClean
 
 /-- loop `l` with all defaults of BaseChannelArgs -/
 def defaultCfg (l : Loop) (pr : PromptPat) (ivl : Nat) : Cfg := cfgOf l defaultP pr.search ivl
+def defaultCfgC (l : Loop) (pr : PromptPat) (ivl : Nat) (cl : Bytes → Bytes → Bytes × Bytes) : Cfg :=
+  cfgOfC l defaultP pr.search ivl cl
 
 /-- loop `l` on a channel built by a driver with default arguments -/
 def driverCfg (l : Loop) (pr : PromptPat) (ivl : Nat) : Cfg := cfgOf l driverP pr.search ivl
+def driverCfgC (l : Loop) (pr : PromptPat) (ivl : Nat) (cl : Bytes → Bytes → Bytes × Bytes) : Cfg :=
+  cfgOfC l driverP pr.search ivl cl
 
 end Scrapli.Auth
